@@ -258,6 +258,8 @@ def gen_native(rng: Any, kind: int, p: int, s: int, fit: bool | None = None) -> 
         coeff *= 10 ** (-s - exp)  # trailing zeros: rescales exactly
     if rng.random() < 0.5:
         coeff = -coeff
+    if coeff == 0 and exp > -s:
+        exp = -s  # 0E+k: pyarrow counts k digits; not a boundary of the property
     return {"n": [5, coeff, exp]}
 
 
@@ -811,6 +813,9 @@ def corpus_types() -> tuple[list[dict[str, Any]], list[list[Any]]]:
         ({"k": "native", "kind": 4, "p": 2, "s": 0}, [{"n": [4, TD_MAX, 0]}, {"n": [4, -1, 0]}]),
         ({"k": "native", "kind": 5, "p": 10, "s": 2}, [{"n": [5, 12, -1]}, {"n": [5, 1234, -3]}, {"n": [5, 1230, -3]}, {"n": [5, 10**10, -2]}, {"n": [5, -(10**10) + 1, -2]}, {"n": [5, 0, -10]}, {"n": [5, 1, 2]}]),
         ({"k": "native", "kind": 0, "p": 0, "s": 0}, [{"n": [0, -719162, 0]}, {"n": [0, 2932896, 0]}]),
+        # 39-digit coefficient, rescale drops a digit: pyarrow wraps modulo 2**128 (open finding C02:silent-change:decimal)
+        ({"k": "native", "kind": 5, "p": 38, "s": 0}, [{"n": [5, -386588882507734923781764784854539347556, -1]}, {"n": [5, 10**38 - 1, 0]}, {"n": [5, 10**38, 0]},
+                                                       {"n": [5, 386588882507734923781764784854539347551, -1]}]),
     ]
     return [a for a, _ in t], [b for _, b in t]
 
